@@ -104,7 +104,7 @@ PROPS = {
              exact_ops=["m.block", "d.bb", "a.block"],
              assumptions=["amounts below 10^36, periods and steps of at least one second, multipliers at most 1 (generator ranges)",
                           "panics inside cosmos-sdk internals that the model does not represent (store/codec Must*, staking BondedRatio, iavl) are seen only by the differential runs"]),
-    "C16": P(["C4E.Props.C16", "C4E.Tie.C16"], ["C4E.Props.C16"],
+    "C16": P(["C4E.Props.C16", "C4E.Props.C16b", "C4E.Tie.C16"], ["C4E.Props.C16"],
              [("upgrade", 250, 4000), ("migrate", 120, 1500)],
              {"m.up.migrate3": "*", "d.up.migrate3": "*", "m.params": "*", "d.params": "*", "m.block": ["amt", "st", "hist"],
               "d.bb": ["states", "main", "bal"], "v.up.split": "*", "v.up.migrate3": "*", "v.up.migrate2": "*", "v.up.traces": "*", "v.up.accounts": "*",
@@ -138,7 +138,7 @@ REQUIRED = {
  'C13':['minter_authority_only','distr_full_stored_valid','distr_sub_stored_valid','distr_share_stored_valid','distr_burn_stored_valid','denom_frozen','minter_update_requires_current'],
  'C14':['books_under_faults','failed_payout_keeps_state','payLoopF_conserves','made_up_exactly','delayed_sweep_bound','payoutOne_keeps_books','payoutLoop_keeps_books','truncateDecimal_split','payoutOne_is_payLoopF_step'],
  'C15':['link_write_once','verify_iff','verify_reads_only','tamper_fails'],
- 'C16':['splitOne_conserves','four_splits_succeed','migrate_v3_fieldwise','migrate_v2_locked','shift_keeps_amounts','minter_migration_same_schedule','minter_migration_valid','minter_migration_succeeds','legacy_zero_exp_not_migratable','distr_migration_same_shares','tie_upgrade_orchestration'],
+ 'C16':['splitOne_conserves','four_splits_succeed','migrate_v3_fieldwise','migrate_v2_locked','shift_keeps_amounts','minter_migration_same_schedule','minter_migration_valid','minter_migration_succeeds','legacy_zero_exp_not_migratable','distr_migration_same_shares','modifyPools_preserves_totals','tie_upgrade_orchestration'],
  'C17':['split_lineage','send_lineage','chain_lineage','splitCoins_lineage','sendToNew_lineage','other_messages_keep_traces','summary_shape'],
  'C18':['withdraw_events_sum','distribution_events_sum','distShares_sum'],
  'C19':['inflation_zero_before_start','inflation_zero_nominting','inflation_zero_exp_ended','inflation_zero_lin_ended','inflation_zero_ended','rate_linear','rate_exp_uses_step_amount','exp_interval','lin_interval'],
